@@ -60,10 +60,11 @@ DEC_BOUNDS = {
               "subsets mode: all 2^n received subsets for RS m=4 n<=12, m=8/codec1 n<=11, LDPC n<=13 (SAS+FIN, ascending DWS+FIN, descending DWS); "
               "large: RS (k,n) list up to 255 and LDPC (100,50),(40,20),(255,64),(1000,10),(700,6): all/first-k/last-k/k-1 symbols, single loss, one source replaced by one repair, cyclic windows, periodic losses, on strides; "
               "rows (C01, C03, C07): LDPC k 2..20, r 3..12, N1 3..5, seeds 1..3 (n<=44): every single equation, pair, and triple touching the first or last equation erased completely, everything else received, FINISH through both APIs; "
-              "lens: 10 configurations x symbol lengths 1..40,63,64,65 x buffer alignments 0..7 (half of them above length 20) x callback none/buffer, plus the limits (k=1, k=n-1=254, n=255, m=4 n=15, LDPC n=5000)"),
+              "lens: 10 configurations x symbol lengths 1..40,63,64,65 x buffer alignments 0..7 (half of them above length 20) x callback none/buffer, plus the limits (k=1, k=n-1=254, n=255, m=4 n=15, LDPC n=5000); EVERY symbol length 41..2100 with configuration / alignment / callback rotating with the length; "
+              "mid-range diagonal (large): every second k up to 252 for both RS codecs with a number of repair symbols derived from k (2 + 11k mod (253-k)) and the k = n-k diagonal: last-k window, middle windows of k and k-1 symbols, periodic loss, one / two sources replaced"),
     "thorough": ("BFS: RS n<=9, LDPC k<=7,r<=7,n<=12,N1<=6,5 seeds; SAS subsets n<=12; lowrate: 16 blocks up to n=26, prefixes up to 6-7 symbols; "
                  "subsets: RS m=4 all (k,n) n<=15, m=8/codec1 n<=14, LDPC n<=16 and the n=20 list; large: all strides 1, double losses / replacements, LDPC (1000,500),(3000,12); "
-                 "rows: k up to 28, r up to 16, 12 seeds, every union of at most three equations; lens: all alignments at all lengths, LDPC n=50000 limits; rand() scripts: all r^r for r<=4, <=2 deviations for r<=5, <=1 otherwise"),
+                 "rows: k up to 28, r up to 16, 12 seeds, every union of at most three equations; lens: all alignments at all lengths, LDPC n=50000 limits; rand() scripts: all r^r for r<=4, <=2 deviations for r<=5, <=1 otherwise; every symbol length 41..4200 x all 10 configurations; mid-range diagonal for every k"),
 }
 
 PROPS["C01"] = {
@@ -136,7 +137,7 @@ PROPS["C13"] = {
     "claim": "complete enumeration of size 0..80 and 256..272 (thorough: 0..272 and 1024..1040) x destination alignment 0..7 x source alignment 0..7 x operand count 0..20 x all 256 (16) field constants x 2 content patterns (plus 16 rotations carrying every byte value at every position class) for the seven kernels; plus long symbols (96..70001 bytes: 2^e-1, 2^e, 2^e+1 for e = 9..16 and values between; thorough up to 2^20) x 8 alignment pairs x operand counts {0..5,7,8,9,15,16,17,20} x 7 constants, and operand counts 21..40, 63..65, 127..129, 255..257, 300 on 10 short sizes; result compared with the byte-wise definition (content patterns not periodic in the offset); reads and writes beyond size trapped by AddressSanitizer (operands end at the end of their heap block) and by canaries",
     "technique": "exhaustive enumeration of a bounded input space (size x alignment x operand count x constant) on the real kernels against a byte-wise reference",
     "rule": "one case = (kernel, size, dst alignment, src alignment, operand count, constant, pattern); states = sizes, transitions = kernel calls compared",
-    "bounds": {"quick": "sizes 0..80,256..272; counts 0..20; alignments 8x8; constants all; 43 long sizes up to 70001 and 30 large operand counts up to 300 on reduced alignment/constant sets", "thorough": "sizes 0..272,1024..1040 (reduced constant/alignment sets above 300); 59 long sizes up to 2^20"},
+    "bounds": {"quick": "sizes 0..80,256..272; counts 0..20; alignments 8x8; constants all; 43 long sizes up to 70001 and 30 large operand counts up to 300 on reduced alignment/constant sets; contiguous sweep: EVERY size 273..2100 x 3 alignment pairs x operand counts {1,2,3,8,17} x 3 constants", "thorough": "sizes 0..272,1024..1040 (reduced constant/alignment sets above 300); 59 long sizes up to 2^20; contiguous sweep up to 9000"},
     "assumptions": ["reference multiplication gfr_mul (engine/ref.c); table correctness itself is C14", "reads before the start of an operand inside its alignment padding are not observable"],
     "runs": [{"name": "kernel-asan", "src": "h_kernel.c", "variant": "asan", "exclude": RS28_TU},
              {"name": "kernel-plain", "src": "h_kernel.c", "variant": "plain", "exclude": RS28_TU}],
@@ -153,13 +154,13 @@ PROPS["C05"] = {
     "claim": "for every (k,r,N1,seed) of the grid and every pollution prefix (6 histories of other sessions, incl. a rejected configuration, an ML-decoding session and a displaced PRNG state): the parity-check matrix walked by rows and by columns in an encoder and in a decoder session equals the RFC 5170 reference entry by entry, and the encoder's codeword satisfies every reference equation (behavioural H); the interleaved case is C12. Histories: every sequence of 6 (thorough 7) LDPC sessions over 4 (5) codes with n = 9, 12, 4097, 4500 (400), each sequence in its own process, encoder/decoder alternating, with and without overlap of consecutive sessions: every matrix equals the reference of its own parameters; and every sequence of 4 (5) steps over 3 measured LDPC codes and 8 other activities (Reed-Solomon 2^8 / 2^m and 2D sessions, two rejected LDPC configurations, an ML decoding that displaces the PRNG, a session left open)",
     "technique": "exhaustive enumeration of a parameter grid x history prefixes on the real code against an independent RFC 5170 reference model",
     "rule": "point = (k,r,N1,seed,prefix); states = points, transitions = build_repair_symbol calls; all points distinct",
-    "bounds": {"quick": "k in {1..12,16,20,32}+3 large points, r in {3..12,16,32}, N1 3..min(r,10), seeds {1,2,2^31-2}, 6 prefixes; k=10000/20000 blocks (structural comparison) with 6 seeds; lengths 1..40 x alignments 1..7 on two small codes", "thorough": "k up to 1000, r up to 500, 7 seeds, 6 prefixes (2 for the largest); 117 further seeds on every shape k<=12, r<=12, N1<=7 (prefix rotating); k=10000/20000 blocks with 40 seeds"},
+    "bounds": {"quick": "k in {1..12,16,20,32}+3 large points, r in {3..12,16,32}, N1 3..min(r,10), seeds {1,2,2^31-2}, 6 prefixes; mid-range sweep: EVERY k in 13..800 with r in {3 + 7k mod 61, k/2 + k mod 7, k (a third), 3 + k mod 9 with N1 = r (a third)}, N1 and seed (LCG of k, mid-range 31-bit values) derived from k; every N1 in 11..40 on three shapes; k=10000/20000 blocks (structural comparison) with 6 seeds; lengths 1..40 x alignments 1..7 on two small codes", "thorough": "k up to 1000, r up to 500, 7 seeds, 6 prefixes (2 for the largest); mid-range sweep for every k up to 3000; 117 further seeds on every shape k<=12, r<=12, N1<=7 (prefix rotating); k=10000/20000 blocks with 40 seeds"},
     "runs": [{"name": "ldpc-trk", "src": "h_enc.c", "variant": "trk", "args": ["--mode", "ldpc"]},
              {"name": "hist-trk", "src": "h_enc.c", "variant": "trk", "args": ["--mode", "hist"]}],
 }
 PROPS["C06"] = {
     "level": "model_checking", "assumptions": ENC_ASSUME,
-    "claim": "RS: for m=4 all 105 (k,n), for m=8 and codec 1 the k list with n in {k+1,255} and all n<=12 (thorough: all k, n<=24): every repair ESI on the identity+dense payload equals the reference generator row (so codec 1 and codec 2/m=8 are byte-identical), enc_matrix of encoder and decoder sessions equals the reference; LDPC: the C05 grid, every reference equation sums to zero over the produced codeword; both slot modes, source buffers compared with pristine copies, NULL slot becomes a fresh library block with the same value; symbol lengths 1..40,64,65,1024 on a reduced list; repeated under AddressSanitizer",
+    "claim": "RS: for m=4 all 105 (k,n), for m=8 and codec 1 the k list with n in {k+1,255}, all n<=12 (thorough: all k, n<=24), and EVERY k in 1..252 with a mid-range number of repair symbols (2 + 11k mod (253-k)) plus the k = n-k diagonal; every symbol length 41..2100 (thorough ..4200) on small codes: every repair ESI on the identity+dense payload equals the reference generator row (so codec 1 and codec 2/m=8 are byte-identical), enc_matrix of encoder and decoder sessions equals the reference; LDPC: the C05 grid, every reference equation sums to zero over the produced codeword; both slot modes, source buffers compared with pristine copies, NULL slot becomes a fresh library block with the same value; symbol lengths 1..40,64,65,1024 on a reduced list; repeated under AddressSanitizer",
     "technique": "exhaustive enumeration of parameter grids x repair ESIs x slot modes on the real encoders against reference models",
     "rule": "point = (codec,m,k,n,len) or (k,r,N1,seed,prefix); transitions = repair symbols built and compared",
     "bounds": {"quick": "see claim (quick lists)", "thorough": "see claim (thorough lists)"},
@@ -173,7 +174,7 @@ PROPS["C15"] = {
     "claim": "for every (k,r,N1,seed) of the grid: encoder and decoder sessions give the same IS_LAST_SYMBOL_NULL answer; whenever it is true every source column of the RFC matrix has even weight and the encoder's last repair symbol on the identity+dense payload is all zero; the answer is asked again (twice) after encoding; session histories (h_enc hist mode): in every sequence of sessions and other activities each LDPC session gives the answer a pristine process gives for the same code and role",
     "technique": "exhaustive enumeration of a parameter grid on the real code against the RFC 5170 reference model",
     "rule": "point = (k,r,N1,seed); non-trivial points are those where the claim is true (counted as null_last_claims)",
-    "bounds": {"quick": "k 1..12, r 3..10, N1 3..min(r,10), seeds 1..5, plus high-rate points", "thorough": "k 1..32, r 3..16, seeds 1..50,16807,2^31-2, plus high-rate points up to k=400"},
+    "bounds": {"quick": "k 1..12, r 3..10, N1 3..min(r,10), seeds 1..5, plus high-rate points; mid-range sweep: every k in 13..500 x 2-3 (r, N1, seed) derived from k (even and odd N1, k = r diagonal), every N1 in 11..40 on two shapes", "thorough": "k 1..32, r 3..16, seeds 1..50,16807,2^31-2, plus high-rate points up to k=400; mid-range sweep up to k=1500"},
     "runs": [{"name": "ldpc-trk", "src": "h_enc.c", "variant": "trk", "args": ["--mode", "ldpc"]},
              {"name": "hist-trk", "src": "h_enc.c", "variant": "trk", "args": ["--mode", "hist"]}],
 }
